@@ -32,7 +32,7 @@ def gen_cases(ctx):
         {"op": "sort", "frame": {"n": 3, "cols": [{"name": "a", "kind": "int", "vals": [0, -9223372036854775808, 5]}]}, "keys": [["a", -1]]},
         {"op": "sort", "frame": {"n": 4, "cols": [{"name": "a", "kind": "timedelta", "vals": [3, None, 1, 2]}]}, "keys": [["a", -1]]},
         {"op": "sort", "frame": {"n": 4, "cols": [{"name": "a", "kind": "strlong", "vals": ["a" * 50 + "b", "a" * 50 + "a", "a" * 50 + "b", "a" * 50]}]}, "keys": [["a", 1]]},
-        # fixed c7d6d59: a trailing null character was dropped by the fixed-width fast path ("a\0" sorted as "a")
+        # known finding (trailing-nul): a trailing null character is dropped by the fixed-width fast path ("a\0" sorts as "a")
         {"op": "sort", "frame": {"n": 4, "cols": [{"name": "a", "kind": "str", "vals": ["a\x00", "a", "a\x00", "b"]}]}, "keys": [["a", 1]]},
         {"op": "sort", "frame": {"n": 4, "cols": [{"name": "a", "kind": "str", "vals": ["a\x00", "a", "a\x00", "b"]}]}, "keys": [["a", -1]]},
     ]
